@@ -54,6 +54,29 @@ pub enum Op {
     Method(String),
     Key(String),
     Frame { w: u16, h: u16 },
+    /// the wall clock steps by so many seconds (negative: it is set back); not an operation of the application
+    Clock(i64),
+}
+
+/// Offset added to CLOCK_REALTIME as the process sees it (the harness binary interposes `clock_gettime`; the monotonic clock used by
+/// the watchdog is not touched).
+pub static WALL_CLOCK_OFFSET_S: std::sync::atomic::AtomicI64 = std::sync::atomic::AtomicI64::new(0);
+
+#[repr(C)]
+pub struct Timespec {
+    tv_sec: i64,
+    tv_nsec: i64,
+}
+
+/// # Safety
+/// called by libc users with a valid pointer
+#[no_mangle]
+pub unsafe extern "C" fn clock_gettime(clk: i32, ts: *mut Timespec) -> i32 {
+    let r = libc::syscall(libc::SYS_clock_gettime, libc::c_long::from(clk), ts) as i32;
+    if r == 0 && clk == 0 {
+        (*ts).tv_sec += WALL_CLOCK_OFFSET_S.load(std::sync::atomic::Ordering::SeqCst);
+    }
+    r
 }
 
 impl Op {
@@ -74,6 +97,7 @@ impl Op {
             Op::Method(m) => format!("M:{m}"),
             Op::Key(k) => format!("K:{k}"),
             Op::Frame { w, h } => format!("F:{w}:{h}"),
+            Op::Clock(d) => format!("T:{d}"),
         }
     }
     pub fn parse(s: &str) -> Option<Op> {
@@ -101,6 +125,7 @@ impl Op {
             'M' => Some(Op::Method(f[1].to_string())),
             'K' => Some(Op::Key(f[1].to_string())),
             'F' => Some(Op::Frame { w: f[1].parse().ok()?, h: f[2].parse().ok()? }),
+            'T' => Some(Op::Clock(f[1].parse().ok()?)),
             _ => None,
         }
     }
@@ -430,6 +455,14 @@ pub fn draw(app: &mut TuiApp, w: u16, h: u16) -> String {
     let mut term = Terminal::new(TestBackend::new(w, h)).expect("terminal");
     term.draw(|f| render(f, app)).expect("draw");
     screen_text(&term)
+}
+
+/// draw and count the cells whose foreground is `color` (graphics have no text to search for)
+pub fn draw_counting(app: &mut TuiApp, w: u16, h: u16, color: ratatui::style::Color) -> (String, usize) {
+    let mut term = Terminal::new(TestBackend::new(w, h)).expect("terminal");
+    term.draw(|f| render(f, app)).expect("draw");
+    let n = term.backend().buffer().content().iter().filter(|c| c.fg == color && c.symbol() != " ").count();
+    (screen_text(&term), n)
 }
 
 pub const METHODS: &[&str] = &[
